@@ -2,7 +2,9 @@ package main
 
 import (
 	"fmt"
+	"time"
 
+	"github.com/insomniacslk/dhcp/dhcpv4/nclient4"
 	"github.com/insomniacslk/dhcp/verifshim/vs"
 )
 
@@ -136,6 +138,17 @@ func c12Scenarios(tier string) []Scenario {
 					}
 				}
 			}
+		}
+	}
+	// DHCPv4 client left at its exported defaults (nclient4.DefaultTimeout, nclient4.DefaultRetries)
+	{
+		T, n := int64(nclient4.DefaultTimeout/time.Millisecond), nclient4.DefaultRetries
+		add(&ClientScenario{V6: false, Defaults: true, T: T, Tries: n, BufCap: -1, CloseAt: -1, Bound: 0,
+			Calls: []CallSpec{{ID: 0, Match: MatchGood, CancelAt: -1, After: -1}}}, "defaults")
+		for k := 1; k <= n; k++ {
+			at := T*((int64(1)<<uint(k-1))-1) + T/2
+			add(&ClientScenario{V6: false, Defaults: true, T: T, Tries: n, BufCap: -1, CloseAt: -1, Bound: 0,
+				Calls: []CallSpec{{ID: 0, Match: MatchGood, CancelAt: -1, After: -1}}, Dgs: []DgSpec{{At: at, Kind: DgGood, ID: 0}}}, "defaults")
 		}
 	}
 	// a transmission fails (plain error / timeout-typed error as after an expired write deadline): the call ends there and
